@@ -587,6 +587,28 @@ func infoEventOn(d *fileDesc, shared *mcap.Reader, fetch bool) (e wl.Ev) {
 		e["hasStats"], e["msgs"] = true, info.Statistics.MessageCount
 		e["stats"] = run.StatsEv(info.Statistics) // the values themselves: judged against the logical content where the trace carries it
 	}
+	// the per-topic view of the per-channel counts (Info.ChannelCounts): asked of every Info, whatever the summary carries.
+	// ccOK: every topic that exactly one listed channel carries, and that has a count, shows that channel's count
+	func() {
+		defer func() {
+			if p := recover(); p != nil {
+				e["ccPanic"], e["ccWhy"] = true, fmt.Sprint(p)
+			}
+		}()
+		e["ccPanic"], e["ccOK"] = false, true
+		cc := info.ChannelCounts()
+		if info.Statistics != nil {
+			perTopic := map[string]int{}
+			for _, c := range info.Channels {
+				perTopic[c.Topic]++
+			}
+			for id, n := range info.Statistics.ChannelMessageCounts {
+				if c := info.Channels[id]; c != nil && perTopic[c.Topic] == 1 && cc[c.Topic] != n {
+					e["ccOK"] = false
+				}
+			}
+		}
+	}()
 	// every listed item is compared, field by field, with the summary record of the decoded file it must stand for
 	ex := infoExact(d, info)
 	for k, v := range ex {
